@@ -85,7 +85,13 @@ def failTag (c : Case) (ans : Option (Str × Str)) (v : Judgement) : String :=
                      else if a.1.isEmpty then "hostless-before-host" else "exact-host-lost-to-pattern"
          | none => "impossible")
       else "hostless-before-host"
-    | .hostSuffix => "shorter-host-suffix-won"
+    | .hostSuffix =>
+      -- recorded finding: `net.SplitHostPort` does not find the port of one of the two keys (a leading
+      -- bracket expression with a port, several colons), so that key is compared with its port in front
+      let unsplit := fun (k : Str) => k.contains ':' && (splitHostPort k).isNone
+      (match ans with
+       | some a => if unsplit a.1 || unsplit b.1 then "shorter-host-suffix-won-port-not-split" else "shorter-host-suffix-won"
+       | none => "impossible")
     | .pathLength => "shorter-path-won-" ++ kindName c.kind
 
 def lookupH : Handler := fun inp impl => do
@@ -221,8 +227,17 @@ def reverseH : Handler := fun inp impl => do
   -- every key keeps its identity through the sort (the lossy double reversal is repaired); `plain` only
   -- classifies the case: keys that `ReverseHostPort` maps back to themselves
   let plain := hs.all (fun h => reverseHostPort (reverseHostPort h) == h)
-  let specOK := !isPanic impl && isPermOf isorted hs
-  let tag := if isPanic impl then "panics" else if !specOK then "sort-loses-a-key"
+  let permOK := !isPanic impl && isPermOf isorted hs
+  -- "a longer host suffix beats a shorter one" on the sorted list itself (the statement of
+  -- `hostBefore_of_longer_suffix`): no pattern whose host part is `*` ++ T stands in front of a pattern whose
+  -- host part ends with T and is longer
+  let rec pairsOK : List Str → Bool
+    | [] => true
+    | b :: rest => rest.all (fun a => !(isGlobPat a && isGlobPat b && longerHostSuffix (hostPart a) (hostPart b))) && pairsOK rest
+  let orderOK := pairsOK isorted
+  let specOK := permOK && orderOK
+  let tag := if isPanic impl then "panics" else if !permOK then "sort-loses-a-key"
+    else if !orderOK then "sort-shorter-suffix-first"
     else if !plain then "degenerate-key" else if hs.length < 2 then "short" else "sorted"
   return ({ model := m, agree := m == impl, spec := specOK, nontrivial := hs.length ≥ 2 && plain, tag } : Verdict).toJson
 
